@@ -1573,8 +1573,12 @@ class Data(BaseCartesianData):
         **not** copied.
         """
 
-        old_labels = [cid.label for cid in self.components]
-        new_labels = [cid.label for cid in data.components]
+        # Pixel and world coordinates are not matched by label: they follow
+        # from the shape and the coordinates, which are updated below
+        old_labels = [cid.label for cid in self.components
+                      if cid not in self.coordinate_components]
+        new_labels = [cid.label for cid in data.components
+                      if cid not in data.coordinate_components]
 
         if len(old_labels) == len(set(old_labels)):
             old_labels = set(old_labels)
